@@ -284,8 +284,13 @@ func (i *interpreter) checkFrozen(addr *value) {
 		return
 	}
 	if what, ok := p.frozen[addr]; ok {
-		i.reportViolation("frozen-write", fmt.Sprintf("write to frozen object %s", what))
-		panic(pathEnd{})
+		// reported once per object and path; execution goes on so that the
+		// consequences (which a native run can observe) are reported as well
+		key := "frozen-reported:" + what
+		if p.extra[key] == nil {
+			p.extra[key] = true
+			i.reportViolation("frozen-write", fmt.Sprintf("write to frozen object %s", what))
+		}
 	}
 	if p.roCells[addr] {
 		i.abort("store through a symbolic table index")
